@@ -27,6 +27,25 @@ Fixpoint json_eqb (a b : json) : bool :=
        end) la lb
   | _, _ => false
   end.
+(* equality of wires up to the order of object keys (JSON objects are unordered) *)
+Fixpoint json_equiv (a b : json) {struct a} : bool :=
+  match a, b with
+  | JArr la, JArr lb =>
+    (fix go (la lb : list json) {struct la} : bool :=
+       match la, lb with
+       | [], [] => true
+       | x :: ra, y :: rb => json_equiv x y && go ra rb
+       | _, _ => false
+       end) la lb
+  | JObj la, JObj lb =>
+    Nat.eqb (length la) (length lb) &&
+    (fix go (la : list (Z * json)) : bool :=
+       match la with
+       | [] => true
+       | (k, x) :: ra => match jget k lb with Some y => json_equiv x y | None => false end && go ra
+       end) la
+  | _, _ => json_eqb a b
+  end.
 Fixpoint kvj_eqb (la lb : list (Z * json)) : bool :=
   match la, lb with
   | [], [] => true
@@ -94,17 +113,27 @@ Definition shapes : kind :=
               121 122 123 124 125 110 127 128 k_result 130 131 132 133 134.
 
 (* bit 0: model encoding differs from the wire the real code produced;
-   bit 1: model decoding of that wire differs from what the real code read back *)
+   bit 1: model decoding of that wire differs from what the real code read back;
+   bit 2: the value is in the domain of the round-trip theorems (confb) but the real code did not
+          read back the original;
+   bit 3 (not an error): the value is outside that domain *)
+Definition dom_bits (inb : bool) (orig : tval) (back : option tval) : Z :=
+  if inb then (if otval_eqb back (Some orig) then 0 else 4) else 8.
 Definition scase (ct : Z -> option cinfo) (xt : Z -> xinfo) (e : tval) (wire : json) (back : option tval) : Z :=
-  (if json_eqb (json_encode ct true e) wire then 0 else 1)
-  + (if otval_eqb (json_decode ct xt wire) back then 0 else 2).
+  (if json_equiv (json_encode ct true e) wire then 0 else 1)
+  + (if otval_eqb (json_decode ct xt wire) back then 0 else 2)
+  + dom_bits (confb ct xt e KEvent) e back.
 Definition ecase (ct : Z -> option cinfo) (xt : Z -> xinfo) (e : tval) (registry : list Z) (wire : json)
   (back : option tval) : Z :=
-  (if json_eqb (env_encode ct true e) wire then 0 else 1)
-  + (if otval_eqb (env_decode ct xt registry wire) back then 0 else 2).
+  (if json_equiv (env_encode ct true e) wire then 0 else 1)
+  + (if otval_eqb (env_decode ct xt registry wire) back then 0 else 2)
+  + dom_bits (confb ct xt e KEvent) e back.
 Definition tcase (ct : Z -> option cinfo) (xt : Z -> xinfo) (t : tval) (wire : json) (back : option tval) : Z :=
-  (if json_eqb (tick_encode ct true t) wire then 0 else 1)
-  + (if otval_eqb (tick_decode ct xt shapes wire) back then 0 else 2).
-(* decode only (hand-made / perturbed wires) *)
-Definition dcase (ct : Z -> option cinfo) (xt : Z -> xinfo) (wire : json) (back : option tval) : Z :=
-  if otval_eqb (json_decode ct xt wire) back then 0 else 2.
+  (if json_equiv (tick_encode ct true t) wire then 0 else 1)
+  + (if otval_eqb (tick_decode ct xt shapes wire) back then 0 else 2)
+  + dom_bits (confb ct xt t shapes) t back.
+(* decode only (envelope without qualified name) *)
+Definition dcase (ct : Z -> option cinfo) (xt : Z -> xinfo) (registry : list Z) (e : tval) (wire : json)
+  (back : option tval) : Z :=
+  (if otval_eqb (env_decode ct xt registry wire) back then 0 else 2)
+  + dom_bits (confb ct xt e KEvent) e back.
